@@ -73,12 +73,49 @@ package socks5
 //@   ensures [C17:unsupported_atyp_reply] len(IN) >= 4 && at(IN, 0) == 5 && at(IN, 1) == 1 && at(IN, 2) == 0 && at(IN, 3) != 1 && at(IN, 3) != 3 && at(IN, 3) != 4 && len(req.rw.Reader.in) == len(IN) - 4 && len(req.rw.Writer.out) > len(OUT) + 1 ==> at(req.rw.Writer.out, len(OUT) + 1) == 8
 //@   ensures reqOK(req) && unchanged(req.rw)
 
+// The argument parser as a state machine over the bytes of the string (the decoder of the pluggable
+// transport specification's "k=v;k=v" encoding with backslash escapes).  PX(s, j) is component X of the
+// state after the first j bytes; NXT(j) = j + 1 is kept uninterpreted so that the step axioms have a
+// purely uninterpreted trigger.  The code is proved to compute exactly this machine, byte by byte.
+//@ spec fn NXT(j Int) Int
+//@ axiom [nxt] forall j Int :: withpat(NXT(j) == j + 1, NXT(j))
+//@ spec fn PESC(s BSeq, j Int) Bool
+//@ spec fn PERR(s BSeq, j Int) Bool
+//@ spec fn PKEY(s BSeq, j Int) BSeq
+//@ spec fn PACC(s BSeq, j Int) BSeq
+//@ spec fn PLOG(s BSeq, j Int) BSeq
+//@ axiom [parse_start] forall s BSeq :: withpat(!PESC(s, 0) && !PERR(s, 0) && PKEY(s, 0) == "" && len(PACC(s, 0)) == 0 && len(PLOG(s, 0)) == 0, PACC(s, 0))
+//@ axiom [parse_step_esc] forall s BSeq, j Int :: withpat(0 <= j && j < len(s) ==> PESC(s, NXT(j)) == (at(s, j) == 92 && !PESC(s, j)), PESC(s, NXT(j)))
+//@ axiom [parse_step_err] forall s BSeq, j Int :: withpat(0 <= j && j < len(s) ==> PERR(s, NXT(j)) == (PERR(s, j)
+//@     || (at(s, j) == 61 && !PESC(s, j) && PKEY(s, j) == "" && len(PACC(s, j)) == 0)
+//@     || (at(s, j) == 59 && !PESC(s, j) && (PKEY(s, j) == "" || j == len(s) - 1))
+//@     || (at(s, j) != 92 && at(s, j) != 61 && at(s, j) != 59 && PESC(s, j))), PERR(s, NXT(j)))
+//@ axiom [parse_step_acc] forall s BSeq, j Int :: withpat(0 <= j && j < len(s) ==> PACC(s, NXT(j)) ==
+//@     ite(at(s, j) == 92, ite(PESC(s, j), cat(PACC(s, j), bbyte(92)), PACC(s, j)),
+//@     ite(at(s, j) == 61, ite(!PESC(s, j) && PKEY(s, j) == "", "", cat(PACC(s, j), bbyte(61))),
+//@     ite(at(s, j) == 59, ite(!PESC(s, j), "", cat(PACC(s, j), bbyte(59))), cat(PACC(s, j), bbyte(at(s, j)))))), PACC(s, NXT(j)))
+//@ axiom [parse_step_key] forall s BSeq, j Int :: withpat(0 <= j && j < len(s) ==> PKEY(s, NXT(j)) ==
+//@     ite(at(s, j) == 61 && !PESC(s, j) && PKEY(s, j) == "", PACC(s, j), ite(at(s, j) == 59 && !PESC(s, j), "", PKEY(s, j))), PKEY(s, NXT(j)))
+//@ axiom [parse_step_log] forall s BSeq, j Int :: withpat(0 <= j && j < len(s) ==> PLOG(s, NXT(j)) ==
+//@     ite(at(s, j) == 59 && !PESC(s, j), cat(PLOG(s, j), PAIR(PKEY(s, j), PACC(s, j))), PLOG(s, j)), PLOG(s, NXT(j)))
+
+// admitted lemma about the specification itself (induction over the step axiom): an error is sticky
+//@ axiom [parse_error_is_sticky] forall s BSeq, j Int, k Int :: withpat(PERR(s, j) && j <= k && k <= len(s) ==> PERR(s, k), PERR(s, j), PERR(s, k))
+
 //@ func parseClientParameters(argStr) (args, err)
 //@   serves C17 C10
 //@   ensures [C17:args_or_error] (err == nil) == (args != nil)
 //@   ensures err == nil ==> fresh(args)
 //@   loop 1 invariant -1 <= rangeindex && rangeindex < len(argStr) && len(argStr) > 0
 //@   loop 1 invariant args != nil && fresh(args) && (acc == nil || fresh(acc)) && 0 <= len(acc)
+//@   loop 1 invariant [C17:parser_state_is_the_specified_machine] !PERR(argStr, NXT(rangeindex)) && prevIsEscape == PESC(argStr, NXT(rangeindex)) && key == PKEY(argStr, NXT(rangeindex)) && seq(acc) == PACC(argStr, NXT(rangeindex)) && args.addlog == PLOG(argStr, NXT(rangeindex))
+//@   ensures [C17:empty_string_is_no_arguments] len(argStr) == 0 ==> err == nil && len(args.addlog) == 0
+//@   ensures [C17:accepts_exactly_the_well_formed_strings] len(argStr) > 0 ==> (err == nil) == (!PERR(argStr, len(argStr)) && !PESC(argStr, len(argStr)) && PKEY(argStr, len(argStr)) != "")
+//@   ensures [C17:result_is_the_specified_parse] len(argStr) > 0 && err == nil ==> args.addlog == cat(PLOG(argStr, len(argStr)), PAIR(PKEY(argStr, len(argStr)), PACC(argStr, len(argStr))))
+
+// the argument string carried by an RFC 1929 message that starts the stream IN: uname, followed by passwd
+// unless passwd is the single NUL byte tor sends for "no more data"
+//@ spec fn ARGSTR(IN BSeq) BSeq := cat(sub(IN, 2, 2 + at(IN, 1)), ite(at(IN, 2 + at(IN, 1)) == 1 && at(IN, 3 + at(IN, 1)) == 0, "", sub(IN, 3 + at(IN, 1), 3 + at(IN, 1) + at(IN, 2 + at(IN, 1)))))
 
 //@ func (*Request).authRFC1929(req) (err)
 //@   serves C17 C10
@@ -86,9 +123,10 @@ package socks5
 //@   modifies req.Args, req.rw.Reader.in, req.rw.Writer.out, req.rw.Writer.nflush, blocked
 //@   ghost IN := req.rw.Reader.in
 //@   ghost OUT := req.rw.Writer.out
-//@   assert_at parseClientParameters#1 [C17:args_are_uname_passwd] len(IN) >= 3 + at(IN, 1) + at(IN, 2 + at(IN, 1)) && arg0 == cat(sub(IN, 2, 2 + at(IN, 1)), ite(at(IN, 2 + at(IN, 1)) == 1 && at(IN, 3 + at(IN, 1)) == 0, "", sub(IN, 3 + at(IN, 1), 3 + at(IN, 1) + at(IN, 2 + at(IN, 1)))))
+//@   assert_at parseClientParameters#1 [C17:args_are_uname_passwd] len(IN) >= 3 + at(IN, 1) + at(IN, 2 + at(IN, 1)) && arg0 == ARGSTR(IN)
 //@   ensures [C17:auth_message] err == nil ==> len(IN) >= 3 + at(IN, 1) + at(IN, 2 + at(IN, 1)) && at(IN, 0) == 1 && at(IN, 1) >= 1 && at(IN, 2 + at(IN, 1)) >= 1
 //@       && req.rw.Reader.in == sub(IN, 3 + at(IN, 1) + at(IN, 2 + at(IN, 1)), len(IN)) && req.Args != nil
+//@   ensures [C17:args_are_the_specified_parse_of_uname_passwd] err == nil ==> req.Args.addlog == cat(PLOG(ARGSTR(IN), len(ARGSTR(IN))), PAIR(PKEY(ARGSTR(IN), len(ARGSTR(IN))), PACC(ARGSTR(IN), len(ARGSTR(IN))))) && len(ARGSTR(IN)) > 0
 //@   ensures [C17:auth_reply] len(OUT) <= len(req.rw.Writer.out) && len(req.rw.Writer.out) <= len(OUT) + 2 && sub(req.rw.Writer.out, 0, len(OUT)) == OUT
 //@       && (len(req.rw.Writer.out) > len(OUT) ==> at(req.rw.Writer.out, len(OUT)) == 1)
 //@       && (len(req.rw.Writer.out) > len(OUT) + 1 ==> at(req.rw.Writer.out, len(OUT) + 1) == 0 || at(req.rw.Writer.out, len(OUT) + 1) == 1)
